@@ -535,10 +535,14 @@ class SessionRig:
         from exabgp.reactor.api.processes import ProcessError
 
         self.api_dead = False
+        self.api_errors = 0  # ProcessError raised so far while a received message was handed to the API
+        self.api_errors_at: list[int] = []  # ... per event
 
-        def alive(what: str = '') -> None:
+        def alive(what: str = '', forward: bool = False) -> None:
             # event `apiDies`: the API process is gone, every write to it raises ProcessError
             if self.api_dead:
+                if forward:
+                    self.api_errors += 1
                 raise ProcessError('the API process is gone')
             if what:
                 self._api(what)
@@ -548,9 +552,9 @@ class SessionRig:
         reactor.processes.down = lambda nb, reason='': alive('down')
         reactor.processes.connected = lambda nb: alive()
         reactor.processes.fsm = lambda nb, fsm: alive()
-        reactor.processes.message = lambda *a, **k: alive()
-        reactor.processes.notification = lambda *a, **k: alive()
-        reactor.processes.packets = lambda *a, **k: alive()
+        reactor.processes.message = lambda *a, **k: alive(forward=True)
+        reactor.processes.notification = lambda *a, **k: alive(forward=True)
+        reactor.processes.packets = lambda *a, **k: alive(forward=True)
         reactor.processes.negotiated = lambda *a, **k: alive()
         reactor.processes.signal = lambda *a, **k: alive()
         reactor.processes.broken = lambda nb: False
@@ -797,6 +801,7 @@ class SessionRig:
         else:
             raise RigError(f'unknown event {ev}')
         await self.settle()
+        self.api_errors_at.append(self.api_errors)
         return list(self.bucket)
 
     # -- whole scripts --------------------------------------------------------------------------
@@ -887,6 +892,7 @@ def run_script(script: list[list], cfg: dict | None = None) -> dict:
         'rx_raw': rig.rx,
         'tx_raw': rig.tx,
         'api': rig.api,
+        'apierr': [b - a for a, b in zip([0] + rig.api_errors_at, rig.api_errors_at)],
         'remote_open': dict(rig.remote_open),
         'sent': list(rig.sent),
     }
@@ -1235,7 +1241,8 @@ def oracle_c10(script: list[list], res: dict, cfg: dict, error_class: Any) -> li
     got_notification: set[int] = set()
     closed: set[int] = set()
     teardown_pending = False
-    for ev, bucket in zip(script, res['buckets']):
+    apierr = res.get('apierr') or [0] * len(script)
+    for i, (ev, bucket) in enumerate(zip(script, res['buckets'])):
         st0, cur0 = state, current
         writes: list[tuple[int, str, str]] = []  # (conn, kind words, state label)
         closed_now: list[int] = []
@@ -1277,6 +1284,13 @@ def oracle_c10(script: list[list], res: dict, cfg: dict, error_class: Any) -> li
         if cause is None:
             continue
         words, must_end = cause
+        if i < len(apierr) and apierr[i]:
+            # the API process is gone and handing it what was just read raised ProcessError (before
+            # the message was looked at): the session is ended by that local failure (`except ProcessError` of
+            # Peer._run: reset, nothing written), not by what was received or by a timer, which
+            # is what the property speaks about.  What was written is still checked above
+            # (nothing after a NOTIFICATION, no reply to one, none outside a session).
+            continue
         mine = [k for cid, k, _ in writes if cid == cur0 and not (k == 'KEEPALIVE' or (k in ('UPDATE', 'EOR', 'REFRESH') and ev[0] == 'holdExpired'))]
         ended = cur0 in closed_now
         if ended and teardown_pending:
@@ -1416,7 +1430,7 @@ def run_case(script: list[list], cfg: dict | None) -> dict:
         import traceback
 
         return {'error': f'{type(e).__name__}: {e}', 'tb': traceback.format_exc()[-1500:]}
-    return {'buckets': r['buckets'], 'rx': r['rx'], 'tx': r['tx'], 'api': [a for _, a in r['api']], 'sent': r['sent'], 'wire': [(round(t, 3), c, k, s) for t, c, k, s in r['wire']]}
+    return {'buckets': r['buckets'], 'rx': r['rx'], 'tx': r['tx'], 'api': [a for _, a in r['api']], 'apierr': r['apierr'], 'sent': r['sent'], 'wire': [(round(t, 3), c, k, s) for t, c, k, s in r['wire']]}
 
 
 # ---------------------------------------------------------------------------------------------
